@@ -68,6 +68,28 @@ def enum_shapes(vmax, fmax, vmin=1, with_unit=True, with_empty_lists=False):
     return out
 
 
+# naming of the fields of named variants: None = f0, f1, ...; 'rot' = in variant vi of an enum the names are rotated by vi (V0 {f0, f1}, V1 {f1, f0}), so
+# that two variants use the same names at different positions
+NAMING = [None]
+
+
+class naming:
+    def __init__(self, mode):
+        self.mode = mode
+
+    def __enter__(self):
+        NAMING.append(self.mode)
+
+    def __exit__(self, *a):
+        NAMING.pop()
+
+
+def fname(vi, i, n):
+    if NAMING[-1] == 'rot' and n > 1:
+        return 'f%d' % ((i + vi) % n)
+    return 'f%d' % i
+
+
 def render_fields(fields, tys, attrs, indent='    '):
     """tys[i]: type text; attrs[i]: list of attribute lines (without #[...] wrapper? no: full text)."""
     if fields.style == 'u':
@@ -85,14 +107,14 @@ def render_fields(fields, tys, attrs, indent='    '):
     return ' (\n%s)' % body
 
 
-def render_variant_fields(fields, tys, attrs, indent='        '):
+def render_variant_fields(fields, tys, attrs, indent='        ', vi=0):
     if fields.style == 'u':
         return ''
     parts = []
     for i in range(fields.n):
         a = ''.join('%s%s\n' % (indent, x) for x in attrs[i])
         if fields.style == 'n':
-            parts.append('%s%sf%d: %s,\n' % (a, indent, i, tys[i]))
+            parts.append('%s%s%s: %s,\n' % (a, indent, fname(vi, i, fields.n), tys[i]))
         else:
             parts.append('%s%s%s,\n' % (a, indent, tys[i]))
     body = ''.join(parts)
@@ -128,7 +150,7 @@ def render_type(shape, type_attrs, tys, fattrs, vattrs=None, generics='', where=
             for a in (vattrs[vi] if vattrs else []):
                 lines.append('    %s\n' % a)
             d = (' = %s' % discr[vi]) if discr and discr[vi] is not None else ''
-            lines.append('    V%d%s%s,\n' % (vi, render_variant_fields(f, tys[vi], fattrs[vi]), d))
+            lines.append('    V%d%s%s,\n' % (vi, render_variant_fields(f, tys[vi], fattrs[vi], vi=vi), d))
         lines.append('}\n')
     return ''.join(lines)
 
@@ -141,7 +163,8 @@ def ctor(shape, vi, exprs, name=TY):
         return head
     if f.style == 't':
         return '%s(%s)' % (head, ', '.join(exprs))
-    return '%s { %s }' % (head, ', '.join('f%d: %s' % (i, e) for i, e in enumerate(exprs)))
+    ev = vi if shape.kind == 'enum' else 0
+    return '%s { %s }' % (head, ', '.join('%s: %s' % (fname(ev, i, f.n), e) for i, e in enumerate(exprs)))
 
 
 def pattern(shape, vi, binds, name=TY):
@@ -152,7 +175,8 @@ def pattern(shape, vi, binds, name=TY):
         return head
     if f.style == 't':
         return '%s(%s)' % (head, ', '.join(binds))
-    return '%s { %s }' % (head, ', '.join('f%d: %s' % (i, b) for i, b in enumerate(binds)))
+    ev = vi if shape.kind == 'enum' else 0
+    return '%s { %s }' % (head, ', '.join('%s: %s' % (fname(ev, i, f.n), b) for i, b in enumerate(binds)))
 
 
 def all_values(shape, domains, name=TY):
